@@ -35,14 +35,7 @@ func (s *c11pgVisitor) event(kind string, node pgsql.SyntaxNode) {
 	s.n++
 	s.log = append(s.log, kind+":"+fmt.Sprintf("%T", node))
 	if s.script.fires(s.n, kind[0], fmt.Sprintf("%T", node)) {
-		switch s.script.act {
-		case 'c':
-			s.Consume()
-		case 'd':
-			s.SetDone()
-		case 'e':
-			s.SetError(c11ScriptedErr)
-		}
+		s.script.c11Calls(s.VisitorHandler)
 	}
 }
 
